@@ -114,6 +114,12 @@ pub fn run_case(case: &Value) -> (Vec<F>, String) {
                     }
                 }
             }
+            // the refused spawn left nothing behind: a well-formed spawn of the same name starts
+            let s1b = w.append_c("g1.spawn", ctx, Some("\"now-valid\""), None);
+            match w.wait(|f| f.topic.starts_with("g1.") && f.topic != "g1.spawn" && meta_str(f, "source_id") == Some(s1b.id.to_string()), 20.0) {
+                Some(f) if f.topic == "g1.start" => {}
+                other => fs.push(F { kind: "c18.error.sticky".into(), msg: format!("a well-formed spawn of a name whose previous spawn was refused answered {:?} {:?} instead of starting", other.as_ref().map(|f| f.topic.clone()), other.as_ref().and_then(|f| f.meta.clone())) }),
+            }
             // spawn for a name that is already running (duplex generator keeps running)
             let s2 = w.append_c("g2.spawn", ctx, Some("each {|x| $x}"), Some(json!({"duplex": true})));
             w.wait(|f| f.topic == "g2.start" && meta_str(f, "source_id") == Some(s2.id.to_string()), 20.0);
